@@ -3,7 +3,7 @@ Anything not listed evaluates to Top (fail closed)."""
 import copy, re
 from sym import *
 import sym
-from evalr import (SeqV, RefV, Cell, StructV, EnumV, TupleV, DynV, ClosureV, IterV, RangeV, SliceV, Top, UNIT,
+from evalr import (fcopy, SeqV, RefV, Cell, StructV, EnumV, TupleV, DynV, ClosureV, IterV, RangeV, SliceV, Top, UNIT,
                    OuterSink, is_term, seqlen, seglen, norm_segs, int_bits, S_of, FieldPlace, IndexPlace)
 from ir import norm_ty, strip_refs, split_generics
 
@@ -90,7 +90,7 @@ def call(I, name, args, e):
              'core::array::<impl [T; N]>::as_slice'):
         return args[0] if isinstance(args[0], RefV) else RefV(Cell(a0))
     if n == '<alloc::vec::Vec<T, A> as core::clone::Clone>::clone':
-        return copy.deepcopy(a0)
+        return fcopy(a0)
     if n == 'alloc::vec::Vec::<T, A>::resize':
         s = a0; newlen = args[1]; v = args[2]
         cur = seqlen(s.segs)
@@ -215,7 +215,7 @@ def call(I, name, args, e):
     if n in ('core::option::Option::<T>::unwrap', 'core::option::Option::<T>::expect'):
         def none():
             I.st.dead = True; return UNIT
-        I.guards.append({'cond': I.matches({'k': 'Variant', 'variant': 'Some', 'subs': []}, a0), 'sp': e.get('sp'), 'kind': 'unwrap'})
+        I.guards.append({'cond': getattr(a0, 'some_cond', None) or I.matches({'k': 'Variant', 'variant': 'Some', 'subs': []}, a0), 'sp': e.get('sp'), 'kind': 'unwrap'})
         return opt_match(I, a0, lambda p: p, none, e)
 
     # ---------------- integers
